@@ -33,6 +33,7 @@ int c01_os_abstract(const JanetAbstractType *t, void *p, c01_edge_fn fn, void *u
 int c01_fw_abstract(const JanetAbstractType *t, void *p, c01_edge_fn fn, void *u);
 int c01_ffi_abstract(const JanetAbstractType *t, void *p, c01_edge_fn fn, void *u);
 int c01_fw_fiber_state(JanetFiber *f, c01_edge_fn fn, void *u);
+void c01_chan_rings(void *chan, int32_t out[12]);
 const uint8_t *c01_sym_deleted(void);                              /* w_symcache.c: the tombstone sentinel */
 
 /* ------------------------------------------------------------------ configuration */
@@ -634,6 +635,21 @@ static void dump_graph(void) {
     fprintf(dumpf, "\n");
     /* slot arrays of the weak blocks the first pass of janet_sweep will look at (REACHABLE | DISABLED), before the sweep */
     for (size_t i = 0; i < nnodes; i++) if (nodes[i].marked || nodes[i].disabled) dump_weak_slots("w", i);
+    /* the ring buffers the mark phase walks: `rq <which> <head> <tail> <capacity> <occupied slots>` for the run queue and for
+     * the three rings of every marked channel; the model driver runs the REGENERATED loops of janet_ev_mark /
+     * janet_chanat_mark_fq / janet_chanat_mark on these numbers */
+#ifdef JANET_EV
+    fprintf(dumpf, "rq spawn %d %d %d %d\n", janet_vm.spawn.head, janet_vm.spawn.tail, janet_vm.spawn.capacity,
+            janet_vm.spawn.head > janet_vm.spawn.tail ? janet_vm.spawn.tail + janet_vm.spawn.capacity - janet_vm.spawn.head : janet_vm.spawn.tail - janet_vm.spawn.head);
+    for (size_t i = 0; i < nnodes; i++) {
+        Node *n = &nodes[i];
+        if (n->kind == JANET_MEMORY_ABSTRACT && n->marked && !n->threaded && ((JanetAbstractHead *) n->p)->type == &janet_channel_type) {
+            int32_t r[12];
+            c01_chan_rings(((JanetAbstractHead *) n->p)->data, r);
+            fprintf(dumpf, "rq items %d %d %d %d\nrq pending %d %d %d %d\nrq pending %d %d %d %d\n", r[0], r[1], r[2], r[3], r[4], r[5], r[6], r[7], r[8], r[9], r[10], r[11]);
+        }
+    }
+#endif
     /* the symbol cache, when this sweep is going to free at least one symbol */
     sym_dumped = sym_dump_wanted();
     if (sym_dumped) dump_symcache("sc");
